@@ -36,6 +36,8 @@ func init() {
 		"(*regexp.Regexp).FindSubmatch":       inRegexFindSubmatch,
 		"(*regexp.Regexp).FindStringSubmatch": inRegexFindSubmatch,
 		"strconv.ParseUint":                   inParseUint,
+		"(*sync.Pool).Get":                    inPoolGet,
+		"(*sync.Pool).Put":                    inPoolPut,
 		"net/url.QueryUnescape":               func(e *Exec, fn *ssa.Function, a []Value) Value { return e.urlUnescape(a[0].(*StringV), true) },
 		"net/url.PathUnescape":                func(e *Exec, fn *ssa.Function, a []Value) Value { return e.urlUnescape(a[0].(*StringV), false) },
 		"unicode/utf8.DecodeRuneInString":     inDecodeRune,
@@ -1019,7 +1021,8 @@ func isDigitT(c *Ctx, b *Term) *Term {
 	return c.And(c.Ule(c.BV('0', 8), b), c.Ule(b, c.BV('9', 8)))
 }
 
-// inParseUint is exact on "0x"/"0X" + 1..16 hex digits, on decimal numbers of
+// inParseUint is exact on "0x"/"0X" + 1..16 hex digits (and on 17 or more hex
+// digits without a leading zero: range error), on decimal numbers of
 // up to 19 digits without a leading zero (and "0"), on the empty string and on
 // strings containing a byte that cannot occur in any Go integer literal;
 // everything else (octal, binary, underscores, overflow) is over-approximated
@@ -1048,6 +1051,16 @@ func inParseUint(e *Exec, fn *ssa.Function, a []Value) Value {
 				v = c.BOr(c.Bin(OpShl, v, c.Int(4)), c.Zext(hexValT(c, b), 64))
 			}
 			return TupleV{v, (*IfaceV)(nil)}
+		}
+	}
+	// hex with more than 16 significant digits: certain range error
+	if n >= 19 {
+		cond := c.And(c.Eq(bs[0], c.BV('0', 8)), c.Or(c.Eq(bs[1], c.BV('x', 8)), c.Eq(bs[1], c.BV('X', 8))), c.Ne(bs[2], c.BV('0', 8)))
+		for _, b := range bs[2:] {
+			cond = c.And(cond, isHexT(c, b))
+		}
+		if e.branch(cond) {
+			return TupleV{c.BV(^uint64(0), 64), mkErr()}
 		}
 	}
 	// decimal
@@ -1145,4 +1158,44 @@ func inToUpper(e *Exec, fn *ssa.Function, a []Value) Value {
 	lower := c.And(c.Ule(c.BV('a', 32), r), c.Ule(r, c.BV('z', 32)))
 	ascii := c.Ult(r, c.BV(0x80, 32))
 	return c.Ite(lower, c.Sub(r, c.BV(32, 32)), c.Ite(ascii, r, e.fresh("toupper", 32)))
+}
+
+// ------------------------------------------------------------ sync.Pool
+//
+// Get returns either an object handed to Put earlier on this path (the most
+// recent one, as the per-P private slot does) or, as after a GC or on another
+// P, a new one from New: both outcomes are explored.
+
+func poolNew(e *Exec, fn *ssa.Function, recv Value) Value {
+	st := fn.Signature.Recv().Type().(*types.Pointer).Elem().Underlying().(*types.Struct)
+	sv := (*recv.(*Pointer).Slot).(*StructV)
+	for i := 0; i < st.NumFields(); i++ {
+		if st.Field(i).Name() == "New" {
+			if f, ok := sv.Fields[i].(*FuncV); ok && f != nil && f.Fn != nil {
+				return e.callFunc(f.Fn, nil, f.Env)
+			}
+		}
+	}
+	return (*IfaceV)(nil)
+}
+
+func inPoolGet(e *Exec, fn *ssa.Function, a []Value) Value {
+	key := a[0].(*Pointer).Obj
+	if items := e.pools[key]; len(items) > 0 {
+		if e.branch(e.fresh("sync.Pool.reuse", 0)) {
+			v := items[len(items)-1]
+			e.pools[key] = items[:len(items)-1]
+			return v
+		}
+	}
+	return poolNew(e, fn, a[0])
+}
+
+func inPoolPut(e *Exec, fn *ssa.Function, a []Value) Value {
+	key := a[0].(*Pointer).Obj
+	if iv, ok := a[1].(*IfaceV); ok && iv == nil {
+		return nil
+	}
+	e.pools[key] = append(e.pools[key], a[1])
+	return nil
 }
